@@ -175,6 +175,10 @@ def discharge(obls, timeout=20, procs=16, seed=0, on_model=None, use_cvc5=True, 
                 plan.append(('z3:ematch', retry_timeout))
                 plan.append(('z3:long', retry_timeout))
             h = hints.get(o.id)
+            if hints and h != 'z3:ematch':
+                # checking against a lock: the e-matching rung is kept only for the obligations it discharged when the lock was
+                # written (a refuted obligation of changed code would otherwise spend that budget as well before it is reported)
+                plan = [x for x in plan if x[0] != 'z3:ematch']
             if h == 'open' and not want_hash:
                 # never discharged when the lock was written: one z3 rung only (looks for a refutation); recorded as open, never as proved
                 plan = [('z3', min(timeout, 10))]
